@@ -607,6 +607,10 @@ class SimQueue:
 # --------------------------------------------------------------------------------------------
 
 import concurrent.futures as _cf
+import concurrent.futures.thread      # noqa: F401  (lazy submodules must be imported *before* any
+import concurrent.futures.process     # noqa: F401   patching: they subclass threading.Thread)
+import multiprocessing.pool           # noqa: F401
+import multiprocessing.queues         # noqa: F401
 
 
 class SimFuture:
